@@ -374,8 +374,13 @@ def r05_5(prog, out):
     pb = prog.facts.body(parser[0])
     # which parameters are the two lists
     lists = [i for i in range(1, pb.arg_count + 1) if pb.local_ty(i).startswith("&[")]
+    if len(lists) == 1:
+        # the seconds may come as any iterator (`impl IntoIterator<Item = i32>`): the parameter that is neither the id slice nor the clock
+        rest = [i for i in range(1, pb.arg_count + 1) if i not in lists and "Instant" not in (pb.local_ty(i) or "")]
+        if len(rest) == 1:
+            lists = [lists[0], rest[0]]
     if len(lists) != 2:
-        out.undecided("parser-signature", prog.loc(parser[0]), "batch parser does not take two slices")
+        out.undecided("parser-signature", prog.loc(parser[0]), "batch parser does not take an id list and a seconds list")
         return
     zips = any(t.callee.path == "std::iter::Iterator::zip" for bb, t in prog.info(parser[0]).calls())
     n = 0
@@ -391,6 +396,13 @@ def r05_5(prog, out):
             # (a) built from the id list element by element: ids.iter().map(|_| x).collect()
             derived = any(c == "std::iter::Iterator::map" for c in s_secs.calls) and any(c.endswith("Iterator::collect") for c in s_secs.calls) \
                 and (s_ids.fields & s_secs.fields) and not any(c.split("::")[-1] in ("take", "skip", "step_by", "filter", "from_ref", "first", "last") for c in s_secs.calls)
+            # (a') one seconds value for every id: an endless `iter::repeat(x)` (zip stops at the ids), or `vec![x; ids.len()]`
+            names_secs = {c.split("::")[-1] for c in s_secs.calls}
+            if "repeat" in names_secs and not (names_secs & {"take", "skip", "step_by", "filter", "chain"}):
+                derived = True
+            if ("from_elem" in names_secs or "repeat_n" in names_secs or "resize" in names_secs) and (s_ids.fields & s_secs.fields) \
+                    and any(c.endswith("::len") for c in s_secs.calls):
+                derived = True
             # (b) a dominating length comparison between the two lists that rejects on mismatch
             guarded = False
             for blk in b.blocks:
